@@ -1173,3 +1173,80 @@ pub fn check_c05(obs: &Observation) -> V {
     }
     out
 }
+
+// ------------------------------------------------------------------------------------------
+// C17 (system level): the runtime stops for inactivity only when every task is idle at once
+// ------------------------------------------------------------------------------------------
+
+/// Oracle for runs without external stop or faults in which the clock is moved by `Step::Wait`
+/// (only while the runtime has nothing to do) and by full ticks at quiescence.
+pub fn check_c17_system(obs: &Observation) -> V {
+    let mut out: V = vec![];
+    let mut add = |sig: String, expl: String| {
+        if !out.iter().any(|(s, _)| *s == sig) {
+            out.push((sig, expl));
+        }
+    };
+    if obs.stop_fired_at.is_some() || obs.killed || obs.crashed_at.is_some() || matches!(obs.result, Some(Err(_))) {
+        return out;
+    }
+    let timeout_ms = crate::world::INACTIVE_TIMEOUT.as_millis() as u64;
+    let t = |step: u64| -> u64 { obs.times.get(step as usize).or(obs.times.last()).copied().unwrap_or(0) };
+    let stop_step: Option<u64> = obs.truth.iter().find(|(_, e)| matches!(e, Truth::Stop)).map(|(s, _)| *s);
+    // classified cause: every remote had already been pruned (no links for prune_remote_delay), in
+    // which case the write task ends on its own timeout without consulting the coordinator
+    let pruned = if !obs.remotes.is_empty() && obs.remotes.iter().all(|r| r.completion_reason.as_deref() == Some("RemoteTimedOut")) {
+        " (every remote had been pruned: the write task ends on its own timeout without a vote)"
+    } else {
+        ""
+    };
+    // (S1) no stop while an envelope was delivered less than the timeout ago
+    if let Some(p) = stop_step {
+        for (ri, r) in obs.remotes.iter().enumerate() {
+            for (s, st) in r.sent.iter().filter(|(s, st)| *s < p && !matches!(st, Step::Wait(_))) {
+                let dt = t(p).saturating_sub(t(*s));
+                if dt > 0 && dt < timeout_ms {
+                    add(
+                        format!("as: agent stopped for inactivity although an envelope was delivered less than the timeout before{}", pruned),
+                        format!("remote {} sent {:?} at step {} (t={} ms); on_stop ran at step {} (t={} ms); timeout {} ms", ri, st, s, t(*s), p, t(p), timeout_ms),
+                    );
+                }
+            }
+        }
+    }
+    // (S1b) nor while one of the agent's lanes changed less than the timeout ago
+    if let Some(p) = stop_step {
+        for (h, e) in obs.truth.iter().filter(|(h, _)| *h < p) {
+            let lane_event = matches!(e, Truth::Value { lane: "v" | "w" | "t", .. } | Truth::MapUpdate { lane: "m", .. } | Truth::MapRemove { lane: "m", .. } | Truth::MapClear { lane: "m", .. });
+            let dt = t(p).saturating_sub(t(*h));
+            if lane_event && dt > 0 && dt < timeout_ms {
+                add(
+                    "as: agent stopped for inactivity although one of its lanes changed less than the timeout before".into(),
+                    format!("{:?} at step {} (t={} ms); on_stop ran at step {} (t={} ms); timeout {} ms", e, h, t(*h), p, t(p), timeout_ms),
+                );
+            }
+        }
+    }
+    // (S3) a command delivered at an earlier instant than the stop was handled
+    let t_stop = stop_step.map(t);
+    let sent_c = obs.remotes.iter().flat_map(|r| r.sent.iter()).filter(|(s, st)| matches!(st, Step::Cmd(l, _) if l == "c") && t_stop.map(|ts| t(*s) < ts).unwrap_or(true)).count();
+    let handled_c = obs.truth.iter().filter(|(_, e)| matches!(e, Truth::Command { lane: "c", .. })).count();
+    if handled_c < sent_c && obs.remotes.iter().all(|r| r.write_failed.is_none()) {
+        add(
+            "as: a command delivered before the inactivity stop began was never handled".into(),
+            format!("{} command(s) to lane c delivered at an earlier instant than the stop, {} handled", sent_c, handled_c),
+        );
+    }
+    // (S4) a stop that has begun completes
+    if stop_step.is_some() && obs.alive_at_end {
+        add("as: the agent ran on_stop but the runtime never completed".into(), format!("on_stop at step {:?}", stop_step));
+    }
+    // (S2) every task idle for two full timeouts: the runtime has stopped
+    if obs.ticks_done >= 2 && obs.alive_at_end && stop_step.is_none() {
+        add(
+            "as: agent still running after every task was idle for two full inactivity timeouts".into(),
+            format!("ticks {} steps {}", obs.ticks_done, obs.steps),
+        );
+    }
+    out
+}
